@@ -52,7 +52,7 @@ def run_pdf(shard, ctx):
             tag = ("c13", kind, D, R)
             Sp = objs.spd_batch(D, R, vi, seed, tag + ("p",), diag=diag)
             mp_ = objs.vec_batch(D, R, vi, seed, tag + ("p",))
-            for prep, mkp, mu_e, Sig_e in objs.pdf_variants(kind, Sp, mp_, which=("fresh", "sliced_neg", "updated", "Sigma+Lambda+lndet", "replaced_mu", "conditioned", "prod_linear", "prod_constant") if vi == 0 else ("fresh",)):
+            for prep, mkp, mu_e, Sig_e in objs.pdf_variants(kind, Sp, mp_, which=("fresh", "sliced_neg", "updated", "Sigma+Lambda+lndet", "replaced_mu", "prod_conjugate", "conditioned", "prod_linear", "prod_constant") if vi == 0 else ("fresh",)):
               if ctx.case(dict(what="entropy", R=R, vi=vi, prep=prep)):
                 with ctx.guard("entropy.call", dict(prep=prep)):
                     p = mkp()
@@ -120,10 +120,11 @@ def run_cond(shard, ctx):
             M = M * 0.0
         b = objs.vecn_batch(Dy, Rc, v, seed, tag + ("b",))
         Sy = objs.spd_batch(Dy, Rc, v, seed, tag + ("Sy",), diag=diag)
-        Sx = objs.spd_batch(Dx, Rx, v + 1, seed, tag + ("Sx",))
+        pxk = "GaussianDiagPDF" if v == 1 else "GaussianPDF"  # also a diagonal-class prior (incl. the M=0 case)
+        Sx = objs.spd_batch(Dx, Rx, v + 1, seed, tag + ("Sx",), diag=(pxk == "GaussianDiagPDF"))
         mx = objs.vec_batch(Dx, Rx, v, seed, tag + ("mx",))
         cond, kw, (M, b, Sy) = objs.mk_cond(kind, M, b, Sy, ctor=ctor)
-        p_x = objs.mk_pdf("GaussianPDF", Sx, mx)
+        p_x = objs.mk_pdf(pxk, Sx, mx)
         facts = dict(M_is_zero=zero, ctor=ctor)
         Hc = np.zeros(R)
         I = np.zeros(R)
